@@ -224,6 +224,64 @@ impl<'a, T: Send + 'a> Par<'a, T> {
     pub fn zip<U: Send + 'a>(self, other: Par<'a, U>) -> Par<'a, (T, U)> {
         Par { indexed: self.indexed && other.indexed, thunks: self.thunks.into_iter().zip(other.thunks).map(|(a, b)| Box::new(move || match (a(), b()) { (Some(x), Some(y)) => Some((x, y)), _ => None }) as Thunk<'a, (T, U)>).collect() }
     }
+    /// Groups of `n` consecutive items; a group is one task (its items are evaluated one after the other inside it).
+    pub fn chunks(self, n: usize) -> Par<'a, Vec<T>> {
+        assert!(n > 0, "chunk size must not be zero");
+        let indexed = self.indexed;
+        let mut groups: Vec<Vec<Thunk<'a, T>>> = Vec::new();
+        for t in self.thunks {
+            if groups.last().map(|g| g.len() == n).unwrap_or(true) {
+                groups.push(Vec::new());
+            }
+            groups.last_mut().unwrap().push(t);
+        }
+        Par { indexed, thunks: groups.into_iter().map(|g| Box::new(move || Some(g.into_iter().filter_map(|t| t()).collect::<Vec<T>>())) as Thunk<'a, Vec<T>>).collect() }
+    }
+    /// Every task gets its own clone of `init` (the finest split rayon may choose).
+    pub fn map_with<S: Send + Clone + 'a, R: Send + 'a, F: Fn(&mut S, T) -> R + Send + Sync + 'a>(self, init: S, f: F) -> Par<'a, R> {
+        let f = Arc::new(f);
+        Par { indexed: self.indexed, thunks: self.thunks.into_iter().map(|t| { let f = f.clone(); let mut st = init.clone(); Box::new(move || t().map(|x| f(&mut st, x))) as Thunk<'a, R> }).collect() }
+    }
+    pub fn map_init<S: 'a, R: Send + 'a, INIT: Fn() -> S + Send + Sync + 'a, F: Fn(&mut S, T) -> R + Send + Sync + 'a>(self, init: INIT, f: F) -> Par<'a, R> {
+        let f = Arc::new(f);
+        let init = Arc::new(init);
+        Par { indexed: self.indexed, thunks: self.thunks.into_iter().map(|t| { let f = f.clone(); let init = init.clone(); Box::new(move || t().map(|x| { let mut st = init(); f(&mut st, x) })) as Thunk<'a, R> }).collect() }
+    }
+    pub fn for_each_with<S: Send + Clone + 'a, F: Fn(&mut S, T) + Send + Sync + 'a>(self, init: S, f: F) {
+        let _ = self.map_with(init, f).drive();
+    }
+    pub fn for_each_init<S: 'a, INIT: Fn() -> S + Send + Sync + 'a, F: Fn(&mut S, T) + Send + Sync + 'a>(self, init: INIT, f: F) {
+        let _ = self.map_init(init, f).drive();
+    }
+    pub fn try_for_each<E: Send + 'a, F: Fn(T) -> Result<(), E> + Send + Sync + 'a>(self, f: F) -> Result<(), E> {
+        // the error of the task that failed first in execution order
+        let (res, order) = run_region(self.map(f).thunks);
+        let mut slots: Vec<Option<Result<(), E>>> = res;
+        for i in order {
+            if let Some(Err(e)) = slots[i].take() {
+                return Err(e);
+            }
+        }
+        Ok(())
+    }
+    /// any match: the one found first in execution order
+    pub fn find_any<F: Fn(&T) -> bool + Send + Sync + 'a>(self, f: F) -> Option<T> {
+        let (res, order) = run_region(self.filter(f).thunks);
+        let mut slots: Vec<Option<T>> = res;
+        order.into_iter().find_map(|i| slots[i].take())
+    }
+    pub fn find_first<F: Fn(&T) -> bool + Send + Sync + 'a>(self, f: F) -> Option<T> {
+        let (res, _) = run_region(self.filter(f).thunks);
+        res.into_iter().flatten().next()
+    }
+    pub fn position_any<F: Fn(T) -> bool + Send + Sync + 'a>(self, f: F) -> Option<usize> {
+        let (res, order) = run_region(self.map(f).thunks);
+        order.into_iter().find(|i| res[*i] == Some(true))
+    }
+    pub fn min_by_key<K: Ord, F: Fn(&T) -> K + Send + Sync>(self, f: F) -> Option<T> { self.drive().into_iter().min_by_key(|x| f(x)) }
+    pub fn max_by_key<K: Ord, F: Fn(&T) -> K + Send + Sync>(self, f: F) -> Option<T> { self.drive().into_iter().max_by_key(|x| f(x)) }
+    pub fn min_by<F: Fn(&T, &T) -> std::cmp::Ordering + Send + Sync>(self, f: F) -> Option<T> { self.drive().into_iter().min_by(|a, b| f(a, b)) }
+    pub fn max_by<F: Fn(&T, &T) -> std::cmp::Ordering + Send + Sync>(self, f: F) -> Option<T> { self.drive().into_iter().max_by(|a, b| f(a, b)) }
     pub fn with_min_len(self, _: usize) -> Self { self }
     pub fn with_max_len(self, _: usize) -> Self { self }
     pub fn len(&self) -> usize { self.thunks.len() }
@@ -271,6 +329,10 @@ impl<'a, T: Send + 'a> Par<'a, T> {
         let parts: Vec<Vec<R>> = self.map(move |x| f(x).into_iter().collect::<Vec<R>>()).drive();
         Par::from_items(parts.into_iter().flatten(), indexed)
     }
+}
+
+impl<'a, R: Send + 'a, I: IntoIterator<Item = R> + Send + 'a> Par<'a, I> {
+    pub fn flatten(self) -> Par<'a, R> { self.flat_map(|x| x) }
 }
 
 impl<'a, T: Send + Sync + Clone + 'a> Par<'a, &'a T> {
@@ -521,6 +583,8 @@ pub mod pool {
         next_task: u32,
         next_region: u32,
         prefix: Vec<usize>,
+        /// what is picked at the choice points after the prefix: 0 = first enabled action, 1 = last, k >= 2 = (k * position + 1) mod n
+        policy: usize,
         pos: usize,
         choices: Vec<(usize, usize)>,
         trace: Vec<(u32, u32)>, // (task id, worker) in start order; resume actions are (u32::MAX, worker)
@@ -594,6 +658,12 @@ pub mod pool {
                     st.diverged = Some(format!("choice point {}: prefix asks for alternative {} of {}", st.pos, pick, acts.len()));
                     pick = 0;
                 }
+            } else {
+                pick = match st.policy {
+                    0 => 0,
+                    1 => acts.len() - 1,
+                    k => (k * st.pos + 1) % acts.len(),
+                };
             }
             st.pos += 1;
             st.choices.push((pick, acts.len()));
@@ -720,17 +790,24 @@ pub mod pool {
 
     /// Run `f` on the calling thread (the root, not a worker) with `workers` fresh worker threads, replaying `prefix`.
     pub fn run<R>(prefix: &[usize], workers: usize, f: impl FnOnce() -> R) -> (R, Outcome) {
+        run_policy(prefix, workers, 0, f)
+    }
+
+    /// As `run`, with a fixed rule for the choice points after the prefix (see State::policy): the way to drive regions of
+    /// thousands of tasks, where the schedule tree cannot be enumerated, through a stated family of schedules.
+    pub fn run_policy<R>(prefix: &[usize], workers: usize, policy: usize, f: impl FnOnce() -> R) -> (R, Outcome) {
         {
             let mut g = STATE.lock().unwrap();
             assert!(g.is_none(), "nested pool::run");
-            *g = Some(State { current: Some(Actor::Root), cmds: (0..workers).map(|_| None).collect(), waits: vec![vec![]; workers], serving: vec![true; workers], prefix: prefix.to_vec(), ..Default::default() });
+            *g = Some(State { current: Some(Actor::Root), cmds: (0..workers).map(|_| None).collect(), waits: vec![vec![]; workers], serving: vec![true; workers], prefix: prefix.to_vec(), policy, ..Default::default() });
         }
         let r = std::thread::scope(|s| {
             for w in 0..workers {
-                s.spawn(move || {
+                // a waiting worker runs other tasks on top of its stack: nesting can get as deep as a region is long
+                std::thread::Builder::new().stack_size(1 << 30).spawn_scoped(s, move || {
                     WORKER.with(|c| c.set(Some(w)));
                     serve(w, None);
-                });
+                }).expect("spawn worker");
             }
             let r = catch_unwind(AssertUnwindSafe(f));
             // shut the workers down
